@@ -83,3 +83,25 @@ Theorem C19_write_protocol_as_modelled :
   protocol_as_modelled gen_prepare_file_write gen_writer_done gen_writer_drop gen_tmp_counter_lines gen_prepare_calls = true.
 Proof. vm_compute. reflexivity. Qed.
 Print Assumptions C19_write_protocol_as_modelled.
+
+(* several destinations at once (model/FsWriteMulti.v: the temp directory and its counter are shared, each writer renames at its own
+   destination): every destination, seen on its own, runs the single-object protocol with the other writers standing in as writers
+   that never rename (proofs/FsWriteMultiProofs.v, a simulation) - so, for every set of writers, destinations, faults and schedules,
+   once all are done no temp file is left and every destination holds its previous content or exactly one successful writer's bytes,
+   that writer being one addressed to this destination *)
+From S3V Require Import model.FsWriteMulti proofs.FsWriteMultiProofs.
+Theorem C19_exactly_one_writer_per_destination : forall ws prev sched,
+  let s := mrun_sched ws prev sched in
+  mall_finished s = true ->
+  mtmps (msfs s) = [] /\
+  forall d, alookup N.eqb d (objs (msfs s)) = alookup N.eqb d prev \/
+            exists w, In w ws /\ m_dest w = d /\ succeeds (m_w w) /\ alookup N.eqb d (objs (msfs s)) = Some (concat (w_frames (m_w w))).
+Proof. exact dest_exactly_one_writer. Qed.
+Print Assumptions C19_exactly_one_writer_per_destination.
+Theorem C19_never_partial_per_destination : forall ws prev sched d,
+  let s := mrun_sched ws prev sched in
+  alookup N.eqb d (objs (msfs s)) = alookup N.eqb d prev \/
+  exists i w, nth_error ws i = Some w /\ m_dest w = d /\ nth_error (mpcs s) i = Some (Finished true) /\ succeeds (m_w w)
+              /\ alookup N.eqb d (objs (msfs s)) = Some (concat (w_frames (m_w w))).
+Proof. exact dest_never_partial. Qed.
+Print Assumptions C19_never_partial_per_destination.
